@@ -353,7 +353,7 @@ def rule_events(ctx: Ctx):
                               norm_stmt(apps[0].node))
     rep.floor("C15.events", "nested iterations of Events.add", n, 1)
     sp = ctx.fn("Event.split")
-    for p in ctx.paths(sp, inline=None, exc_edges="none"):
+    for p in ctx.paths(sp, inline=None, exc_edges="none", comps_for_loops=True):
         if p.kind != "return":
             continue
         one = [b for b in p.of("branch") if "len(" in xshow(b.term, p.events) and "== 1" in xshow(b.term, p.events)]
@@ -451,7 +451,7 @@ def _enum_loop_form(ctx: Ctx, fn, p, obj: str):
 def rule_enum(ctx: Ctx):
     rep = ctx.rep
     fn = ctx.fn("States.from_enum")
-    for p in ctx.paths(fn, inline=None, exc_edges="none"):
+    for p in ctx.paths(fn, inline=None, exc_edges="none", comps_for_loops=True):
         if p.kind != "return":
             continue
         evs = p.events
